@@ -3,7 +3,7 @@ CHECK_DEADLOCK FALSE
 CONSTANTS
   MaxLen = 3
   MaxTok = 2
-  Kinds = {"Ref", "Slice", "Str", "Vec", "String", "Box", "VecIntoIter", "ChunkIter", "RawIter", "Splice", "Drain", "DrainFilter", "StrDrain"}
+  Kinds = {"Ref", "Slice", "Str", "Vec", "String", "Box", "VecIntoIter", "ChunkIter", "RawIter", "Splice", "Drain", "DrainFilter", "StrDrain", "LeakRef", "BumpSlice", "BumpSliceMut", "BumpStr", "BoxedSlice", "IntoInnerRef"}
 INVARIANTS
   EmitInv
   OrdinaryAccepted
